@@ -11,7 +11,7 @@ pub fn def() -> PropDef {
     PropDef { id: "C14", level: "exploration", run, case, render }
 }
 fn opts() -> RawGenOpts {
-    RawGenOpts { abstracts: true, pico: false, annotations: true, nets_need_label_purpose: false, nonrect_nets: true, max_cells: 5, closed_polygons: true, abs_only_cells: true, shared_purpose_numbers: false, contact_near_bend: false }
+    RawGenOpts { abstracts: true, pico: false, annotations: true, nets_need_label_purpose: false, nonrect_nets: true, max_cells: 5, closed_polygons: true, abs_only_cells: true, shared_purpose_numbers: false, contact_near_bend: false, instances_of_abstracts: true }
 }
 #[derive(Clone, Debug, PartialEq, Eq, PartialOrd, Ord)]
 enum Canon {
